@@ -306,6 +306,11 @@ def _de_facts(impl, type_item):
                             for n in A.find_all(arm["body"], lambda n: isinstance(n, dict) and n.get("k") == "struct" and n.get("x")
                                                 and len(n["path"]["segs"]) == 2 and n["path"]["segs"][0]["id"] == name):
                                 built.add(n["path"]["segs"][1]["id"])
+                            if not built:
+                                # tuple / unit variants: `Name::V(..)` calls or bare `Name::V` paths
+                                for n in A.find_all(arm["body"], lambda n: isinstance(n, dict) and n.get("x") and n.get("k") == "path"
+                                                    and len(n["path"]["segs"]) == 2 and n["path"]["segs"][0]["id"] == name):
+                                    built.add(n["path"]["segs"][1]["id"])
                             if len(built) != 1:
                                 raise Unrecognised(f"{name}: visit_enum arm {fid} builds {sorted(built)}")
                             vname = built.pop()
